@@ -3,13 +3,15 @@ import NavisModel.Gen.Swc
 /-!
 SWC export / import model for C07 (DESIGN §5 "C07").  Core Lean only, total, computable.
 
-* `makeSwcTable` follows `navis.io.swc_io.make_swc_table` line by line: label rules, the
-  `sort_values("parent_id")` ordering (`sortByParent`, a *stable* sort; pandas' default quicksort is
-  not stable, so the property theorems are stated for **every** order that is a permutation of the
-  node table sorted by `parent_id` — `IsParentSort`), `reset_index`, `new_ids = dict(zip(node_id, index + 1))`,
-  `node_id.map(new_ids)`, `parent_id.map(lambda x: new_ids.get(x, -1))`, `radius.fillna(0)`.
-* `makeSwcTableTopo` is the repaired ordering: stable sort by depth (roots first, every parent before
-  its children).
+* `makeSwcTable` follows `navis.io.swc_io.make_swc_table` line by line: label rules, the ordering
+  (`_node_depths` + `sort_values("_depth", kind="stable")` = `sortByDepth`, a stable sort by the number of
+  steps to the root: roots first, every parent before its children), `reset_index`,
+  `new_ids = dict(zip(node_id, index + 1))`, `node_id.map(new_ids)`, `parent_id.map(lambda x: new_ids.get(x, -1))`,
+  `radius.fillna(0)`.
+* HISTORICAL: before the fix "write_swc/make_swc_table lists every parent before its children" the rows were
+  ordered with `sort_values("parent_id")` (default quicksort, not stable).  `sortByParent`, `IsParentSort` and
+  `makeSwcTableHist` keep that ordering in the model only so that the theorems in `Props/C07.lean` can state
+  exactly for which inputs it was wrong; nothing in navis corresponds to them any more.
 * `Tok` / `Line` are the token level of a file: the character-level lexer lives in the driver
   (`Drv/C07.lean`, trusted); `parseSwc` mirrors `SwcReader.read_buffer` (leading `#` lines are the header,
   the first `# Meta:` header line carries the JSON properties, `#` lines and blank lines between data rows
@@ -113,17 +115,17 @@ def insertBy {α : Type} (key : α → Int) (a : α) : List α → List α
 /-- Stable insertion sort by an integer key. -/
 def isortBy {α : Type} (key : α → Int) (l : List α) : List α := l.foldr (insertBy key) []
 
-/-- `swc.sort_values("parent_id", ascending=True)` (stable representative). -/
+/-- HISTORICAL ordering `swc.sort_values("parent_id", ascending=True)` (stable representative). -/
 def sortByParent (t : List SNode) : List SNode := isortBy (·.parent) t
 
 /-- Number of nodes on the path to the root (1 for a root). -/
 def depth (t : List SNode) (i : Int) : Nat := (rootPath (forest t) i).length
 
-/-- Repaired ordering: stable sort by depth. -/
+/-- `swc["_depth"] = _node_depths(…); swc.sort_values("_depth", kind="stable")`: stable sort by depth. -/
 def sortByDepth (t : List SNode) : List SNode :=
   (isortBy (fun p : Int × SNode => p.1) (t.map fun n => (((depth t n.id : Nat) : Int), n))).map (·.2)
 
-/-- `o` is an admissible result of `sort_values("parent_id")` on `t`. -/
+/-- HISTORICAL: `o` is an admissible result of `sort_values("parent_id")` on `t` (any tie order). -/
 def IsParentSort (t o : List SNode) : Prop :=
   o.Perm t ∧ o.Pairwise (fun a b => a.parent ≤ b.parent)
 
@@ -152,16 +154,16 @@ def rowOf (lab : SNode → Option Int) (o : List SNode) (n : SNode) : SwcRow :=
 /-- Everything after the sort: new ids, parent remap, column selection, `fillna(0)`. -/
 def finish (lab : SNode → Option Int) (o : List SNode) : List SwcRow := o.map (rowOf lab o)
 
-/-- `make_swc_table(x, labels, export_connectors)` as written. -/
-def makeSwcTable (op : Opts) (sk : Skel) : List SwcRow := finish (labelOf op sk) (sortByParent sk.nodes)
+/-- `make_swc_table(x, labels, export_connectors)`. -/
+def makeSwcTable (op : Opts) (sk : Skel) : List SwcRow := finish (labelOf op sk) (sortByDepth sk.nodes)
 
-/-- The same table with the repaired (parent-first) ordering. -/
-def makeSwcTableTopo (op : Opts) (sk : Skel) : List SwcRow := finish (labelOf op sk) (sortByDepth sk.nodes)
+/-- HISTORICAL: the table with the ordering used before the fix (`sort_values("parent_id")`). -/
+def makeSwcTableHist (op : Opts) (sk : Skel) : List SwcRow := finish (labelOf op sk) (sortByParent sk.nodes)
 
 /-- The node map returned with `return_node_map=True` (old id → new id), in file order. -/
 def nodeMapOf (o : List SNode) : List (Int × Int) := o.map fun n => (n.id, newId o n.id)
 
-def nodeMap (sk : Skel) : List (Int × Int) := nodeMapOf (sortByParent sk.nodes)
+def nodeMap (sk : Skel) : List (Int × Int) := nodeMapOf (sortByDepth sk.nodes)
 
 /-! ### validity of an SWC table -/
 
@@ -218,7 +220,7 @@ def tokNum? : Tok → Option Rat
   | _ => none
 
 /-- One data row: at least seven tokens, the first seven are the SWC columns; id, parent and the
-coordinates must be numbers (a NaN there makes `sanitise_nodes` take its repair branch, see `parseSwcSanitised`). -/
+coordinates must be numbers (`none` = a row `sanitise_nodes` drops). -/
 def parseRow (ts : List Tok) : Option SwcRow :=
   match ts with
   | i :: l :: x :: y :: z :: r :: p :: _ =>
@@ -227,11 +229,6 @@ def parseRow (ts : List Tok) : Option SwcRow :=
       some { id := i, label := tokInt? l, x := x, y := y, z := z, radius := tokNum? r, parent := p }
     | _, _, _, _, _ => none
   | _ => none
-
-def allSome {α : Type} : List (Option α) → Option (List α)
-  | [] => some []
-  | none :: _ => none
-  | some a :: l => (allSome l).map (a :: ·)
 
 structure SwcFile where
   props : Option (List (String × String))
@@ -255,27 +252,28 @@ def rowLine? : Line → Option (List Tok)
 /-- `read_csv(skiprows=len(header), comment='#')`: later comment lines and blank lines are skipped. -/
 def dataRows (ls : List Line) : List (List Tok) := (ls.dropWhile isHeader).filterMap rowLine?
 
-/-- Enough columns: `len(nodes.columns) < 7` raises; the column count is that of the first row and all
-rows must have it. -/
+/-- Enough columns: `len(nodes.columns) < 7` raises; the column count is that of the first row; a later row
+with more fields is a tokenizer error, one with fewer fields is padded with NaN by `read_csv` (and then dropped
+by `sanitise_nodes` when a key column is among the missing ones: `parseRow` = `none`). -/
 def columnsOK (rs : List (List Tok)) : Bool :=
   match rs with
   | [] => true
-  | r :: _ => decide (7 ≤ r.length) && rs.all (fun q => q.length == r.length)
+  | r :: _ => decide (7 ≤ r.length) && rs.all (fun q => decide (q.length ≤ r.length))
 
-/-- `SwcReader.read_buffer` up to the node table (as written: a NaN in a key column is an error). -/
-def parseSwc (ls : List Line) : Option SwcFile :=
-  if columnsOK (dataRows ls) then
-    (allSome ((dataRows ls).map parseRow)).map fun rs => { props := metaOf ls, rows := rs }
-  else none
+/-- the complete rows -/
+def keptRows (rs : List (Option SwcRow)) : List SwcRow := rs.filterMap id
 
-/-- What `sanitise_nodes` is meant to do: drop rows with a NaN in id / parent / x / y / z, then turn
-every row whose parent is gone into a root. -/
+/-- `nodes.loc[~nodes.parent_id.isin(nodes.node_id), "parent_id"] = -1` for one row -/
+def reRoot (kept : List SwcRow) (r : SwcRow) : SwcRow :=
+  if kept.any (fun q => q.id == r.parent) then r else { r with parent := -1 }
+
+/-- `sanitise_nodes`: drop rows with a NaN in id / parent / x / y / z (`parseRow` = `none`); if any row was
+dropped, every remaining row whose parent is not among the remaining ids becomes a root (`parent_id = -1`). -/
 def sanitiseRows (rs : List (Option SwcRow)) : List SwcRow :=
-  let kept := rs.filterMap id
-  if kept.length = rs.length then kept
-  else kept.map fun r => if kept.any (fun q => q.id == r.parent) then r else { r with parent := -1 }
+  if (keptRows rs).length = rs.length then keptRows rs else (keptRows rs).map (reRoot (keptRows rs))
 
-def parseSwcSanitised (ls : List Line) : Option SwcFile :=
+/-- `SwcReader.read_buffer` up to the node table handed to `TreeNeuron`. -/
+def parseSwc (ls : List Line) : Option SwcFile :=
   if columnsOK (dataRows ls) then
     some { props := metaOf ls, rows := sanitiseRows ((dataRows ls).map parseRow) }
   else none
@@ -322,11 +320,11 @@ def headerLines (wm : WriteMeta) (op : Opts) (sk : Skel) : List Line :=
   [.comment "PointNo Label X Y Z Radius Parent", .comment "Labels:", .comment "0 = undefined, 1 = soma, 5 = fork point, 6 = end point"] ++
   (if op.exportConn then [.comment "7 = presynapses, 8 = postsynapses"] else [])
 
-/-- `_write_swc` for an arbitrary admissible order `o` of the node table. -/
+/-- `_write_swc` for an arbitrary order `o` of the node table. -/
 def writeWith (wm : WriteMeta) (op : Opts) (sk : Skel) (o : List SNode) : List Line :=
   headerLines wm op sk ++ (finish (labelOf op sk) o).map renderRow
 
-def write (wm : WriteMeta) (op : Opts) (sk : Skel) : List Line := writeWith wm op sk (sortByParent sk.nodes)
+def write (wm : WriteMeta) (op : Opts) (sk : Skel) : List Line := writeWith wm op sk (sortByDepth sk.nodes)
 
 /-! ### reading back -/
 
